@@ -2,6 +2,7 @@
 From Coq Require Import List NArith Lia Bool.
 From Rpgp Require Import Base.Octets Base.Res Frame.Framing Frame.FramingProofs Aead.Seipd2 Aead.Seipd2Proofs
   Sym.Cfb Sym.CfbProofs Armor.Base64 Armor.Armor Armor.ArmorProofs Key.Lock Msg.Pipeline Msg.PipelineProofs.
+From Rpgp Require Import Io.Emitter Frame.PartialWriter Msg.SignGen Msg.SignGenProofs.
 Import ListNotations.
 Open Scope N_scope.
 
@@ -74,3 +75,16 @@ Theorem C01_full_stack :
     end.
 Proof. exact full_stack. Qed.
 Print Assumptions C01_full_stack.
+
+(* the writing side of a signed, streamed message as the staged producer the code is: one-pass packets one
+   at a time, the literal packet passed through from the streamed writer while everything the writer takes
+   from the source goes to the hashers, the signature packets only after the writer's end.  Whatever sizes
+   the consumer reads with, it receives the one-pass packets, the literal packet emit_partial(payload), and
+   the signature packets computed over the WHOLE payload ([sigs_of] = any function of the hashed octets) *)
+Theorem C01_sign_generator_machine_is_spec :
+  forall k h (sigs_of : bytes -> list bytes), lenN h < 2 ^ k ->
+    forall (req : N -> N) ops data,
+      sg_run k h sigs_of req ops data =
+      (concat ops ++ emit_partial 11 k h data ++ concat (sigs_of data), EClean).
+Proof. exact sg_machine_is_spec. Qed.
+Print Assumptions C01_sign_generator_machine_is_spec.
